@@ -15,7 +15,15 @@ PROVED (Props/C03.lean, theorems about the model, all sizes / T / flip patterns)
     stage, and it satisfies the property iff the cluster stage neutralises the residual cluster syndrome;
   * recoveryOk_sound: the monitor used below is equivalent to "recovery XOR e is in the code space for every e
     with the target syndrome".
-TIED TO THE CODE by exact correspondence on every run: _tparity, _measurement_error_tparities, the tail of
+  * Props/C03/TParity.lean (Model/SmwpmTp.lean): success / custom_values of the rotated-toric DecodeResult as
+    functions of the two MATCHINGS: two bits, non-zero iff success=False; each stage t-parity = parity of the number of
+    time-wrapping fused pairs (order / orientation / space coordinates irrelevant); custom_values = total crossing
+    parities incl. last-step measurement flips; run success <=> commutes with stabilizers and logicals and both
+    parities even (or itp / T=1); T=1: always (None, (0,0)) and the run reports the two-element zero vector.
+TIED TO THE CODE by exact correspondence on every run: the stage t-parities, success and custom_values given the two
+recorded matchings on EVERY direct / app / exhaustive / bias-context rotated-toric decode_ftp call (driver op
+`smwpm tftp`; decoder-instance histories excepted: several calls share one recording) and the run verdict of the real
+app.run_once_ftp (`smwpm trun`, c02_smwpm); _tparity, _measurement_error_tparities, the tail of
 decode_ftp (scripted stage outputs AND stage outputs recorded from real runs by monkeypatching from here),
 _recovery_tparities / _cluster_recovery_tparities as functions of the recorded clusters / cluster matches, the planar
 composition, and the reachable-set witness (Lean's step errors + flips fed through the real app.run_once_ftp).
@@ -72,6 +80,9 @@ RULE = ('(a) exact correspondence: _tparity on T in -4..9 x a,b in -12..12; _mea
         'support of the model (single X/Z/Y per qubit class, pairs, light random; T 1..3, optional flips) through '
         'decode_ftp with the same monitors; out-of-domain models (derived bias not positive finite / infinite, or '
         'rejected with the documented ValueError) are counted. '
+        '(e) every rotated-toric decode_ftp of (b)/(d): both _matching results recorded, stage t-parities / success / '
+        'custom_values compared exactly with the model given the matchings; app.run_once_ftp / run_ftp with time_steps=1 '
+        'and the real rotated-toric decoder must report the two-element all-zero time-parity vector. '
         'non-trivial = some syndrome bit set / non-default branch')
 
 TL = 120  # seconds per real decode (decoders can hang after a mutation; typical worst case here is a few seconds)
@@ -146,6 +157,10 @@ class Rec:
     def reset(self):
         self.sym = self.clu = self.clusters = self.cmatches = None
         self.psym = self.pclu = None
+        if getattr(self, 'sm', None) is None:
+            from qv import c02_smwpm
+            self.sm = c02_smwpm.Rec()   # both matchings / _ClusterNode creation order of the rotated-toric decoder
+        self.sm.reset()
 
 
 HOOKS_MISSING = []
@@ -196,12 +211,15 @@ def patched(rec):
 
     def h_pclu(a, out):
         rec.pclu = np.array(out)
+    from qv import c02_smwpm
     try:
         wrap(TD, '_recovery_tparities', h_sym)
         wrap(TD, '_cluster_recovery_tparities', h_clu)
         wrap(PD, '_recovery', h_psym)
         wrap(PD, '_cluster_recovery', h_pclu)
-        yield
+        # nested inside (restored first): what both `_matching` calls of the rotated-toric decoder returned
+        with c02_smwpm.patched(TD, rec.sm):
+            yield
     finally:
         for cls, name, orig in saved:
             setattr(cls, name, orig)
@@ -336,6 +354,8 @@ def unmat(s):
 def run_recipe(rc):
     """re-run one recorded decoder call (or decoder-instance history) on the current tree; returns (failures,
     outcome-text)"""
+    if 'single_step' in rc:
+        return single_step_failures(rc['single_step'])
     if 'history' in rc:
         fails = run_history(rc['history'], rc.get('upto'))
         return ['step {}: {}'.format(k, w) for k, w, _ in fails], 'history of {} steps on one {} decoder'.format(
@@ -405,6 +425,17 @@ class Checker:
                 ctx.case('c03 crtp {} {} {} {}'.format(R, C, T, matches_wire(rec.cmatches)),
                          'op={} x={} z={}'.format(bits(cop), cx, cz), nontrivial=bool(rec.cmatches),
                          meta={'part': part})
+                # t-parities / success / custom_values as functions of the two recorded MATCHINGS (Model/SmwpmTp.lean)
+                tied = False
+                try:
+                    from qv import c02_smwpm
+                    bias = make_decoder('toric', rc['eta'])._bias(make_em(tuple(rc['em'])))
+                    fl = c02_smwpm.flags_of(bias, rc['p'], rc['qeff'])
+                    tied = c02_smwpm.toric_ftp_case(ctx, rec.sm, size, rows, fl, bool(itp), meas, out,
+                                                    {'recipe': rc, 'c03part': part})
+                except (KeyError, TypeError, ValueError):
+                    pass
+                ctx.count('toric.matchings-tie', ('tied ' if tied else 'skipped ') + part)
                 ctx.count('toric.cv', ilist(out.custom_values) if out.custom_values is not None else 'N')
                 ctx.count('toric.defective-clusters', bool(rec.cmatches))
         else:
@@ -664,7 +695,12 @@ def part_witness(ctx):
             ctx.case(line, 'unparsable-model-reply', meta={'part': 'witness'}); continue
         es = [r for r in unmat(kv['es'])]; ms = [r for r in unmat(kv['meas'])]
         dec = RecDec(n)
-        app.run_once_ftp(code, T, ScriptEM(es), dec, 0.3, 0.3, ScriptRng(ms))
+        try:
+            app.run_once_ftp(code, T, ScriptEM(es), dec, 0.3, 0.3, ScriptRng(ms))
+        except Exception as ex:  # noqa: B902 - the real run must hand the array to decode_ftp for EVERY T >= 1
+            ctx.monitor_fail('run_once_ftp raised {!r} instead of calling decode_ftp with the syndrome array'.format(ex),
+                             {'op': line, 'time_steps': T, 'step_errors': kv['es'], 'flips': kv['meas']},
+                             key='app.run_once_ftp:raises')
         same = dec.seen is not None and np.array_equal(dec.seen, rows)
         ctx.case(line, 'es={} meas={} same={}'.format(kv['es'], kv['meas'], int(same)), nontrivial=bool(np.any(rows)),
                  meta={'part': 'witness'})
@@ -674,6 +710,56 @@ def part_witness(ctx):
                              {'op': line, 'decoder_got': None if dec.seen is None else mat(dec.seen)},
                              key='app.run_once_ftp:reachable-witness')
         ctx.count('witness.reachable', reach)
+
+
+# ----------------------------------------------------------------------------------------------- single-step runs
+
+def single_step_failures(ss):
+    """the last clause of C03 on the real code: a fault-tolerant run with ONE time step and the rotated-toric decoder
+    reports the two-element all-zero time-parity vector (run_once_ftp: `custom_values`, run_ftp: `custom_totals`),
+    whatever q / itp are (theorems single_step_all_zero / single_step_run of Props/C03/TParity.lean);
+    returns (failures, outcome-text)"""
+    from qecsim import app
+    code = make_code('toric', ss['size']); dec = make_decoder('toric', ss['eta'], ss['itp'])
+    em = make_em(tuple(ss['em']))
+    try:
+        with core.TimeLimit(TL):
+            if ss['via'] == 'run_once_ftp':
+                data = app.run_once_ftp(code, 1, em, dec, ss['p'], ss['q'], np.random.default_rng(ss['seed']))
+                cv = data.get('custom_values')
+            else:
+                data = app.run_ftp(code, 1, em, dec, ss['p'], ss['q'], max_runs=ss['runs'], random_seed=ss['seed'])
+                cv = data.get('custom_totals')
+    except core.TimeLimit.Expired:
+        return [], 'timeout'
+    except Exception as ex:  # noqa: B902
+        return ['{} with time_steps=1 raised {!r}'.format(ss['via'], ex)], repr(ex)
+    if cv is None or np.shape(cv) != (2,):
+        return ['single-step fault-tolerant run does not report the two-element time-parity vector: {!r}'.format(cv)], \
+            repr(cv)
+    if np.any(np.asarray(cv) != 0):
+        return ['single-step fault-tolerant run declares a time-like failure: {!r}'.format(cv)], repr(cv)
+    return [], repr(cv)
+
+
+def part_single_step(ctx):
+    """app.run_once_ftp / app.run_ftp with time_steps = 1 and the REAL rotated-toric decoder (no proxy), over sizes,
+    p, q in {default, 0, mid, 1}, itp, bias contexts; own rng derived from the seed (the streams of the other parts
+    are unchanged)"""
+    import random
+    rng = random.Random('c03-single-step-{}'.format(ctx.seed))
+    n = 0
+    for _ in range(ctx.scale(16, 80)):
+        eta, ems, _btag = pick_bias_context(rng)
+        ss = {'size': list(rng.choice([(2, 2), (2, 4), (4, 2), (4, 4)])), 'eta': eta, 'em': list(ems),
+              'itp': rng.random() < 0.3, 'p': rng.choice([0.05, 0.2, 0.5]), 'q': rng.choice([None, 0, 0.2, 1]),
+              'via': rng.choice(['run_once_ftp', 'run_ftp']), 'runs': rng.choice([1, 3]), 'seed': rng.getrandbits(31)}
+        fails, _txt = single_step_failures(ss)
+        for f in fails:
+            ctx.monitor_fail(f, {'single_step': ss}, key='app:single-step-time-parity')
+        ctx.count('single-step.via', ss['via']); ctx.count('single-step.q', ss['q'])
+        n += 1
+    return n
 
 
 # ----------------------------------------------------------------------------------------------- part (b) random
@@ -1456,6 +1542,7 @@ def run(ctx):
     part_tparity(ctx)
     part_mtp(ctx)
     part_finalize_scripted(ctx)
+    n_single = part_single_step(ctx)
     part_witness(ctx)
     ctx.extra['part_a_s'] = round(time.time() - t, 1)
     with patched(rec):
@@ -1476,11 +1563,13 @@ def run(ctx):
     if timeouts:
         ctx.extra['timeouts'] = ctx.extra.get('timeouts', 0) + timeouts
     ctx.counterexamples.sort(key=lambda c: 0 if isinstance(c.get('input'), dict) and (
-        'rows' in c['input'] or 'history' in c['input']) else 1)
+        'rows' in c['input'] or 'history' in c['input'] or 'single_step' in c['input']) else 1)
     if HOOKS_MISSING:
         # the stage functions the tie (a) observes are gone: the correspondence can no longer be evaluated
         ctx.case('c03 hooks ' + ','.join(sorted(set(HOOKS_MISSING))), 'present', meta={'part': 'hooks'})
     if os.environ.get('QV_DEBUG'):
+        print('[c03] matchings-tie', dict(ctx.hist.get('toric.matchings-tie', {})), dict(ctx.hist.get('smwpm.toric.ftp', {})),
+              dict(ctx.hist.get('smwpm.toric.stage-tp', {})))
         print('[c03]', ctx.extra, 'exh', n_exh, 'rand', n_rand, 'hist', n_hist, dict(hstats), [(d['family'], d['size'], d['T'], d['context'], d['arrays'], d['s'])
                                                                   for d in domains if d['s'] > 1.0])
     mon_rule = ('synd(code.stabilizers, recovery) == XOR of the rows handed to decode_ftp (Python and Lean driver), no '
@@ -1525,7 +1614,14 @@ def run(ctx):
     ctx.explored['smwpm_model_tie'] = {
         'evaluations': int(sm.get('decodes', 0)), 'exhaustive': False,
         'rule': 'ideal and FTP (T<=3) decodes: recorded graphs, matchings, clusters, both recovery stages and the final '
-                'recovery compared exactly with Model/Smwpm.lean given the recorded matchings'}
+                'recovery compared exactly with Model/Smwpm.lean given the recorded matchings; rotated toric FTP decodes '
+                'are made by the real app.run_once_ftp with scripted step errors / flips and additionally tie the stage '
+                't-parities, success, custom_values (op tftp) and the rows / verdict of the run (op trun) to '
+                'Model/SmwpmTp.lean'}
+    ctx.explored['single_step_runs'] = {
+        'evaluations': int(n_single), 'exhaustive': False,
+        'rule': 'app.run_once_ftp / app.run_ftp with time_steps=1 and the real rotated-toric decoder over sizes, p, q in '
+                '{default,0,.2,1}, itp, bias contexts: custom_values / custom_totals is the two-element all-zero vector'}
     return ctx.finish(RULE, search=search,
                       explanation='run-level algebra, reachable-input characterisation and result-constructor logic '
                                   'are theorems tied by exact correspondence; the SMWPM matching/clustering internals '
@@ -1590,6 +1686,12 @@ def search(m):
         return None
     if toks[1] == 'fin':
         return fin_counterexample(m['op'], meta.get('recipe'))
+    if toks[0] == 'smwpm' and meta.get('recipe'):
+        # t-parities / success / custom_values as functions of the recorded matchings differ from Model/SmwpmTp.lean:
+        # is the property itself false for this call?
+        fails, txt = run_recipe(meta['recipe'])
+        if fails:
+            return {'what': fails[0], 'recipe': meta['recipe'], 'decode_ftp_returned': txt}
     return None
 
 
@@ -1600,12 +1702,12 @@ def replay(ctx, path):
         ce = v.get('counterexample') or {}
         inp = ce.get('input') if isinstance(ce.get('input'), dict) else {}
         mm = v.get('first_mismatch') or {}
-        rc = (inp if 'rows' in inp or 'history' in inp else None) or ce.get('recipe') or (mm.get('meta') or {}).get('recipe')
+        rc = (inp if 'rows' in inp or 'history' in inp or 'single_step' in inp else None) or ce.get('recipe') or (mm.get('meta') or {}).get('recipe')
         op = ce.get('op') or inp.get('op') or mm.get('op') or ''
         if rc:
             fails, txt = run_recipe(rc)
             print('replay', {k: rc[k] for k in ('family', 'size', 'T', 'eta', 'itp', 'em', 'p', 'qeff', 'upto') if k in rc}
-                  or 'history', '->',
+                  or rc.get('single_step') or 'history', '->',
                   fails or 'property holds', '|', txt[:200])
             bad += bool(fails)
         elif op.startswith('c03 fin'):
